@@ -215,6 +215,9 @@ fn blackbox(kind: &str, k: usize, out: &mut Out) {
         if hang != 0 {
             out.viol("bb-hang", &format!("{kind} {k}: no answer and no close within the deadline"));
         }
+        if get("emb") != 0 {
+            out.viol("bb-answer-in-body", &format!("{kind} {k}: a status line sits inside the body of a response that had started"));
+        }
         // (bytes behind an interim response are the next response of the same exchange)
         if extra != 0 && status / 100 != 1 {
             out.viol("bb-two-answers", &format!("{kind} {k}: {extra} bytes follow a complete response"));
@@ -237,6 +240,12 @@ fn blackbox(kind: &str, k: usize, out: &mut Out) {
             out.viol("bb-no-result", &format!("{kind} {k}: the second request was not sent"));
         } else if !want.is_empty() && !want.contains(&seen[1].0) {
             out.viol("bb-reuse", &format!("{kind} {k}: the second request on the reused connections observed '{}', documented {want:?}", seen[1].0));
+        }
+        return;
+    }
+    if kind == "abort_then_next" {
+        if seen.len() != 2 || seen[1].0 != "relay" || seen[1].1 != 6 {
+            out.viol("bb-cross-request", &format!("abort_then_next: observed {:?}: the next client must get its own 6-byte response", seen));
         }
         return;
     }
